@@ -71,3 +71,38 @@ func determinismEval(c *Ctx, rule string) {
 }
 
 var reviewedNondetEval = map[string]string{}
+
+// determinismCatchpoint: C14 R14.5 — map iteration order inside the call
+// closure of the catchpoint tracker's commit path and of the merkle trie.
+func determinismCatchpoint(c *Ctx, rule string) {
+	scope := func(rel string) bool {
+		switch rel {
+		case "ledger", "ledger/ledgercore", "ledger/store/trackerdb", "crypto/merkletrie", "ledger/store/trackerdb/sqlitedriver":
+			return true
+		}
+		return false
+	}
+	var entries []*ssa.Function
+	for _, n := range []string{"prepareCommit", "commitRound", "postCommit", "accountsUpdateBalances", "finishFirstStage", "finishCatchpoint",
+		"createCatchpoint", "generateCatchpointData", "recordFirstStageInfo", "initializeHashes"} {
+		entries = append(entries, c.Fn("ledger.catchpointTracker."+n))
+	}
+	cl := c.Closure(entries, scope)
+	c.Check(len(cl) >= 100, rule, "closure(catchpoint commit path)", "-", itoa(len(cl))+" functions reachable from the catchpoint tracker's commit/first-stage/label methods inside ledger, ledgercore, trackerdb, sqlitedriver and merkletrie")
+	c.MapRangeRule(rule, cl, reviewedMapRangesCatchpoint)
+}
+
+var reviewedMapRangesCatchpoint = map[string]string{
+	"ledger.catchpointTracker.accountsUpdateBalances:range(kvDeltas)":             "each key deletes its old leaf and adds its new leaf; the trie root depends only on the resulting set of leaves (C17), and distinct keys give distinct leaves except for the C15 known finding",
+	"ledger.catchpointTracker.recordCatchpointFile:range(filesToDelete)":           "removes obsolete catchpoint files from disk; no hashed value depends on it",
+	"crypto/merkletrie.merkleTrieCache.commitTransaction:range(mtc.txCreatedNodeIDs)": "moves per-transaction bookkeeping into sets keyed by node id",
+	"crypto/merkletrie.merkleTrieCache.commitTransaction:range(mtc.txDeletedNodeIDs)": "moves per-transaction bookkeeping into sets keyed by node id",
+	"crypto/merkletrie.merkleTrieCache.rollbackTransaction:range(mtc.txCreatedNodeIDs)": "drops every node created in the aborted transaction, keyed by node id",
+	"crypto/merkletrie.merkleTrieCache.commit:range(pagesToDelete)":                 "deletes each page by its own key in the committer",
+	"crypto/merkletrie.merkleTrieCache.commit:range(pagesToUpdate)":                 "stores each page under its own key in the committer",
+	"crypto/merkletrie.merkleTrieCache.reallocatePendingPages:range(mtc.pendingCreatedNID)": "collects the set of touched pages keyed by page number (sorted before use)",
+	"crypto/merkletrie.merkleTrieCache.reallocatePendingPages:range(createdPages)":   "remaps child identifiers of every node through the same reallocation map; node hashes do not include storage identifiers",
+	"crypto/merkletrie.merkleTrieCache.reallocatePendingPages:range(nodeIDs)":        "remaps child identifiers of every node through the same reallocation map; node hashes do not include storage identifiers",
+	"crypto/merkletrie.merkleTrieCache.reallocatePage:range(mtc.pageToNIDsPtr[page])": "assigns fresh storage identifiers; identifiers are local storage addresses and are not hashed",
+	"crypto/merkletrie.merkleTrieCache.encodePage:range(nodeIDs)":                    "serialises a page for the local database; page bytes are never hashed or compared across nodes",
+}
